@@ -80,6 +80,8 @@ let apply_image (files : segfile list) (kind : string) : segfile list =
   | _ -> failwith ("bad image " ^ kind)
 
 let cur : (segfile list) option ref = ref None
+let cur_opt = ref false
+let cur_seg = ref N0
 
 let () =
   read_lines stdin (fun line ->
@@ -98,7 +100,7 @@ let () =
           if r = [] then (w', w.w_sync) else run w' pre r in
       let (w, pre) = run w0 w0.w_sync ops in
       let files = w_files w in
-      cur := Some files;
+      cur := Some files; cur_opt := (opt = "1"); cur_seg := nh seg;
       Printf.printf "%s\tpre=%s sync=%s segrec=%s flushed=%s recs=%s files=%s\n" id
         (sync_str pre) (sync_str w.w_sync) !segrec (hx w.w_pw.pw_flushed)
         (String.concat "," (rec_strs ops))
@@ -129,6 +131,29 @@ let () =
           | Some None -> Buffer.add_string b " rep=0"
           | Some (Some (size, r2)) ->
             Buffer.add_string b (Printf.sprintf " rep=1 size=%s r2=%s" (hx size) (ra_str r2)));
+         (* second generation: append to the recovered wal, close, reopen *)
+         let cont = (match split_on '\t' line with _ :: _ :: _ :: _ :: c :: _ -> c | _ -> "-") in
+         if cont <> "-" then begin
+           let final_files = (match o.ro_first with
+               | RAOk _ -> Some files
+               | RAErr _ -> (match o.ro_repair with
+                   | Some (Some (_, RAOk _)) -> repair files
+                   | _ -> None)) in
+           match final_files with
+           | None -> Buffer.add_string b " tz=? cont=? g2=nowriter"
+           | Some ff ->
+             (match writer_after !cur_opt !cur_seg ff o.ro_at with
+              | None -> Buffer.add_string b " tz=? cont=? g2=nowriter"
+              | Some w ->
+                let cops = List.map parse_op (split_on ';' cont) in
+                let w' = List.fold_left w_step w cops in
+                let files2 = w_files w' in
+                let o2 = reopen files2 mode in
+                let crecs = List.tl (rec_strs cops) in
+                Buffer.add_string b (Printf.sprintf " tz=1 cont=%s g2=at2=%s.%s %s"
+                  (if crecs = [] then "-" else String.concat "," crecs)
+                  (hx o2.ro_at.sn_index) (hx o2.ro_at.sn_term) (ra_str (final_result o2))))
+         end;
          Printf.printf "%s\t%s\n" id (Buffer.contents b))
     | id :: "D" :: segs :: _ ->
       let segs = List.map bytes_of_hex (if segs = "" then [] else split_on ',' segs) in
